@@ -32,6 +32,10 @@ type script struct {
 	AfterReg string
 	// AfterCfg: "sync" (Synchronize, session stays) | "drop" (close once the Configure response arrived)
 	AfterCfg string
+	// AfterCfgErr: what follows a Configure call that the stub answered with an error:
+	//   ""      keep the connection open (the session stays until the runtime is shut down)
+	//   "drop"  close the connection 50 ms later (what pkg/adaptation does)
+	AfterCfgErr string
 	// byte-level cuts (cutting proxy on the runtime side of the socket); -1 = none.
 	// CutW: close the connection after this many bytes were sent to the plugin;
 	// CutR: close it after this many bytes were received from the plugin.
@@ -271,6 +275,10 @@ func (s *session) afterRegister() {
 		return
 	}
 	if s.cfgErr != nil {
+		if s.sc.AfterCfgErr == "drop" {
+			time.Sleep(50 * time.Millisecond)
+			s.cc.kill()
+		}
 		return
 	}
 	_, s.syncErr = s.plugin.Synchronize(ctx, &api.SynchronizeRequest{})
